@@ -20,6 +20,7 @@ mod c09;
 mod c10;
 mod c10conn;
 mod c18;
+mod c18conn;
 mod genpkt;
 mod libconv;
 mod outbound;
@@ -81,6 +82,7 @@ fn main() {
                 "C20" => c20::trace(t, idx, &choices, script, 60_000),
                 "C19" => c19::trace(t, idx, &choices, script, 20_000),
                 "C10" => c10conn::trace(t == Tier::Thorough, idx, &choices, script, 20_000),
+                "C18" => c18conn::trace(t == Tier::Thorough, idx, &choices, script, 20_000),
                 "C03" | "C04" | "C11" | "C12" | "C16" | "C17" => c03::trace(&prop, t, idx, &choices, script, 20_000),
                 _ => {
                     eprintln!("no trace support for {prop}");
@@ -114,6 +116,7 @@ fn main() {
                     "C20" => c20::trace(t, idx, &choices, None, max_polls),
                     "C19" => c19::trace(t, idx, &choices, None, max_polls),
                     "C10" => c10conn::trace(t == Tier::Thorough, idx, &choices, None, max_polls),
+                    "C18" => c18conn::trace(t == Tier::Thorough, idx, &choices, None, max_polls),
                     "C03" | "C04" | "C11" | "C12" | "C16" | "C17" => c03::trace(&prop, t, idx, &choices, None, max_polls),
                     _ => {
                         eprintln!("no simnet replay for {prop}");
